@@ -1352,7 +1352,12 @@ impl Env {
                         all.push((
                             Which::C20,
                             format!("{name}-corrected-batch-refused"),
-                            format!("{name}: after the rejected batch, the corrected batch {corrected:?} failed with {} ({})", got2.kind, got2.detail),
+                            format!(
+                                "{name}: after the rejected batch, the corrected batch [{}] failed with {} ({})",
+                                corrected.iter().map(|x| x.to_string()).collect::<Vec<_>>().join(","),
+                                got2.kind,
+                                got2.detail
+                            ),
                         ));
                     } else if let Some(d) = obs_diff(&want2_obs, &observe(s, fx, false).await) {
                         all.push((
